@@ -180,7 +180,7 @@ FamC09(dummy) ==
   UNION {{Run(P, <<>>, G) : G \in {ItemIds(P, {"and_then"}), InitIds(P) \cup {90}, ItemIds(P, {"then"}) \cup {IidOf(0)}}} :
          P \in {[Build(Kind(TRUE, t, sp), "res", pr, StepC09, NoName, InC09, IF t THEN "and_then" ELSE "then") EXCEPT !.hform = hf] :
                   t \in BOOLEAN, sp \in BOOLEAN, hf \in {"closure", "call"},
-                  pr \in IF Tier = "quick" THEN {<<1>>, <<2>>, <<1, 1>>, <<2, 1>>, <<1, 2>>} ELSE Profiles(2, 3) \cup {<<1, 1, 1>>, <<2, 1, 2>>}}}
+                  pr \in IF Tier = "quick" THEN {<<1>>, <<2>>, <<1, 1>>, <<2, 1>>, <<1, 2>>, <<2, 2>>, <<2, 1, 2>>} ELSE Profiles(2, 3) \cup {<<1, 1, 1>>, <<2, 1, 2>>, <<2, 2, 2>>, <<1, 3, 3>>}}}
 
 \* ---- C10: every operator class, every operand form, faults and recoveries
 StepC10(b, k) ==
